@@ -421,3 +421,22 @@ Lemma delete_then_same a1 a2 j ops :
   skipn (length (rchain a1) - j) (rchain a1) = skipn (length (rchain a2) - j) (rchain a2) ->
   run a1 (ODelete j :: ops) = run a2 (ODelete j :: ops).
 Proof. intros H1 H2 E. cbn [run]. rewrite (delete_no_trace a1 a2 j H1 H2 E). reflexivity. Qed.
+
+(* ---- the priority rule of the model IS the source: chain.higherPriority as translated by go2coq from
+   chain/account_pool.go on every run (gen/Pure.v; bytes.Compare of the two hashes enters as its result) *)
+From ZV.gen Require Pure.
+Definition bytes_compare (x y : Z) : Z := if x <? y then -1 else if x =? y then 0 else 1.
+Definition priority_code (e : Z) : Z :=
+  if e =? 0 then 0 else if e =? Pure.Err_chain_ErrPlasmaRatioIsWorse then 1 else 2.
+Lemma higher_priority_is_source a b :
+  higher_priority a b =
+  priority_code (Pure.higherPriority (btotal a) (bbase b) (btotal b) (bbase a) (bytes_compare (bhash a) (bhash b))).
+Proof.
+  unfold higher_priority, Pure.higherPriority, priority_code, bytes_compare, u64, GoSem.wrapU.
+  change (2 ^ 64) with two64.
+  destruct (btotal a * bbase b mod two64 <? btotal b * bbase a mod two64); [reflexivity|].
+  destruct (btotal a * bbase b mod two64 =? btotal b * bbase a mod two64); cbn [andb]; [|reflexivity].
+  destruct (bhash a <? bhash b) eqn:L.
+  - assert ((bhash b <=? bhash a) = false) as -> by lia. reflexivity.
+  - destruct (bhash a =? bhash b) eqn:E; (assert ((bhash b <=? bhash a) = true) as -> by lia); reflexivity.
+Qed.
